@@ -205,6 +205,167 @@ def shrink(binary, case):
     return cur
 
 
+# ---------------------------------------------------------------- sequences of unified multi-GPU launches
+
+LHEADER = ('From Coq Require Import ZArith List.\nImport ListNotations.\n'
+           'From VGrid Require Import Grid Launches.\nOpen Scope Z_scope.\n')
+
+
+def lstrip(case):
+    return {'cus': case['cus'], 'sched': case.get('sched', 1),
+            'launches': [{'g': l['g'], 's': l['s'], 'queue': l.get('queue', 0)} for l in case['launches']]}
+
+
+def run_launch_impl(binary, cases=None, seed=1, n=50):
+    tmp = os.path.join(vlib.BUILD, 'c08l_%d.json' % os.getpid())
+    if cases is not None:
+        inp = tmp + '.in'
+        json.dump(cases, open(inp, 'w'))
+        rc, log = vlib.run([binary, '--launches', '--replay', inp, '--out', tmp])
+        os.remove(inp)
+    else:
+        rc, log = vlib.run([binary, '--launches', '--seed', str(seed), '--n', str(n), '--out', tmp])
+    if rc != 0:
+        return None, log
+    out = json.load(open(tmp))
+    os.remove(tmp)
+    return out, log
+
+
+def monitor_launches(case):
+    """C08 for launches that are in flight together: the requests of every launch
+    partition that launch's own grid.  Independent of the model."""
+    if case.get('crash'):
+        return 'the driver / grid builder panicked: %s' % case['crash']
+    for k, l in enumerate(case['launches']):
+        n = [nwg(l['g'][d], l['s'][d]) for d in range(3)]
+        total = n[0] * n[1] * n[2]
+        where = 'launch %d of %d (grid %s, work-group %s, queue %d, %d GPUs with CUs %s)' % (
+            k, len(case['launches']), l['g'], l['s'], l['queue'], len(case['cus']), case['cus'])
+        if not l['reqs']:
+            return where + ': no LaunchKernelReq reached any GPU'
+        for r in l['reqs']:
+            if r['numwg'] != len(r['produced']):
+                return where + ': GPU %d announces %d work-groups, its grid builder produces %d' % (
+                    r['gpu'], r['numwg'], len(r['produced']))
+        seen = collections.Counter(tuple(p) for r in l['reqs'] for p in r['produced'])
+        announced = sum(r['numwg'] for r in l['reqs'])
+        allids = set(itertools.product(range(n[0]), range(n[1]), range(n[2])))
+        missing = sorted(allids - set(seen))
+        dup = sorted(p for p, c in seen.items() if c > 1)
+        foreign = sorted(set(seen) - allids)
+        if announced != total or missing or dup or foreign:
+            return where + (': %d work-groups in the grid, %d announced and %d produced over all GPUs; never produced %s%s; '
+                            'produced twice %s; not in the grid %s' % (
+                                total, announced, sum(seen.values()), missing[:4], '...' if len(missing) > 4 else '',
+                                dup[:4], foreign[:4]))
+    return None
+
+
+def shrink_launches(binary, case):
+    def fails(c):
+        out, _ = run_launch_impl(binary, cases=[c])
+        return bool(out) and monitor_launches(out[0]) is not None
+    cur = lstrip(case)
+    budget = 60
+    changed = True
+    while changed and budget > 0:
+        changed = False
+        cands = []
+        if len(cur['launches']) > 1:
+            for k in range(len(cur['launches'])):
+                cands.append(dict(cur, launches=cur['launches'][:k] + cur['launches'][k + 1:]))
+        if len(cur['cus']) > 1:
+            for k in range(len(cur['cus'])):
+                cands.append(dict(cur, cus=cur['cus'][:k] + cur['cus'][k + 1:]))
+        for k, l in enumerate(cur['launches']):
+            for key in ('g', 's'):
+                for d in (2, 1, 0):
+                    v = l[key][d]
+                    for nv in (1, v // 2):
+                        if 1 <= nv < v:
+                            l2 = dict(l)
+                            l2[key] = list(l[key])
+                            l2[key][d] = nv
+                            cands.append(dict(cur, launches=cur['launches'][:k] + [l2] + cur['launches'][k + 1:]))
+        for c in cands:
+            budget -= 1
+            if budget <= 0:
+                break
+            if fails(c):
+                cur = c
+                changed = True
+                break
+    return cur
+
+
+def launch_part(rep, binary, thorough, replay_cases):
+    n = 800 if thorough else 90
+    if replay_cases is not None:
+        cases, log = run_launch_impl(binary, cases=[lstrip(c) for c in replay_cases])
+        cases = cases or []
+    else:
+        cases = []
+        p = os.path.join(vlib.ROOT, 'corpus', PROP, 'launches-seq.json')
+        if os.path.exists(p):
+            cases, log = run_launch_impl(binary, cases=[lstrip(c) for c in json.load(open(p))])
+            cases = cases or []
+        gen, log = run_launch_impl(binary, seed=vlib.seed(), n=n)
+        if gen is None:
+            rep.obligation('harness run (launch sequences)', False)
+            rep.violation({'broken': 'harness run (--launches) failed', 'log': log[-4000:]}, nofail=True)
+            return
+        cases += gen
+    bad = [(i, m) for i, m in ((i, monitor_launches(c)) for i, c in enumerate(cases)) if m]
+    okc, mism, clog = vlib.eval_cases(PROP, LHEADER, [c['coq'] for c in cases], shard_size=12,
+                                      checker='lmismatches', ty='lcase')
+    rep.obligation('correspondence: %d sequences of overlapping unified multi-GPU launches evaluated by the model'
+                   % len(cases), okc and not mism)
+    rep.coverage.update({
+        'launch_sequences': len(cases),
+        'launches': sum(len(c['launches']) for c in cases),
+        'launch_sequences_on_two_queues': sum(1 for c in cases if len({l['queue'] for l in c['launches']}) > 1),
+        'launch_sequences_with_different_wg_counts': sum(
+            1 for c in cases if len({nwg(l['g'][0], l['s'][0]) * nwg(l['g'][1], l['s'][1]) * nwg(l['g'][2], l['s'][2])
+                                     for l in c['launches']}) > 1),
+        'launch_requests': sum(len(l['reqs']) for c in cases for l in c['launches']),
+        'launch_model_mismatches': len(mism), 'launch_monitor_failures': len(bad),
+    })
+    if not bad and (mism or not okc) and replay_cases is None:
+        for extra in range(1, 5):
+            more, _ = run_launch_impl(binary, seed=vlib.seed() * 1000 + extra, n=300)
+            for c in more or []:
+                m = monitor_launches(c)
+                if m:
+                    cases.append(c)
+                    bad.append((len(cases) - 1, m))
+                    break
+            if bad:
+                break
+    if bad:
+        i, msg = bad[0]
+        small = shrink_launches(binary, cases[i])
+        out, _ = run_launch_impl(binary, cases=[small])
+        if not out or monitor_launches(out[0]) is None:
+            out = [cases[i]]
+        what = monitor_launches(out[0])
+        o = copy.deepcopy(out[0])
+        o.pop('coq', None)
+        rep.violation({'property': PROP, 'kind': 'launches', 'what': what, 'case': o,
+                       'replay_cmd': './check C08 --replay <this file>'}, text=what)
+    elif mism or not okc:
+        i, k = mism[0] if mism else (0, 0)
+        o = copy.deepcopy(cases[i]) if cases else None
+        if o:
+            o.pop('coq', None)
+        rep.violation({'property': PROP, 'kind': 'launches',
+                       'broken': 'correspondence between coq/grid/Launches.v and the driver\'s unified multi-GPU launch '
+                       '(distributeWGToGPUs + WGFilter closures): code %d of sequence %d (1000+k = the requests of launch k '
+                       'differ, 2000+k = the model panics, 9 = crash)' % (k, i),
+                       'case': o, 'code': k, 'log': clog[-2000:]}, nofail=True,
+                      text='launch sequences: model/implementation mismatch at sequence %d (code %d)' % (i, k))
+
+
 def main(argv):
     rep = vlib.Report(PROP, 'proof')
     rep.checker_cmd = ('make -C coq props/C08.vo && coqc props/C08.v (Print Assumptions) && '
@@ -222,6 +383,7 @@ def main(argv):
     n = 4000 if thorough else 320
 
     replay_file = None
+    replay_launches = None
     if '--replay' in argv:
         replay_file = argv[argv.index('--replay') + 1]
 
@@ -244,15 +406,21 @@ def main(argv):
     # ---- run the implementation
     if replay_file:
         obj = json.load(open(replay_file))
-        src = obj.get('case') or obj.get('cases') or obj
-        src = src if isinstance(src, list) else [src]
-        cases, log = run_impl(binary, cases=[strip(c) for c in src])
-        cases = cases or []
+        if isinstance(obj, dict) and obj.get('kind') == 'launches':
+            replay_launches = obj.get('case') or obj.get('cases')
+            replay_launches = replay_launches if isinstance(replay_launches, list) else [replay_launches]
+            cases = []
+        else:
+            src = obj.get('case') or obj.get('cases') or obj
+            src = src if isinstance(src, list) else [src]
+            cases, log = run_impl(binary, cases=[strip(c) for c in src])
+            cases = cases or []
     else:
         corpus = []
         cdir = os.path.join(vlib.ROOT, 'corpus', PROP)
         for p in sorted(os.listdir(cdir)) if os.path.isdir(cdir) else []:
-            corpus += json.load(open(os.path.join(cdir, p)))
+            if p.endswith('.json') and not p.startswith('launches'):
+                corpus += json.load(open(os.path.join(cdir, p)))
         cases = []
         if corpus:
             cases, log = run_impl(binary, cases=[strip(c) for c in corpus])
@@ -331,6 +499,8 @@ def main(argv):
                        'about this code' % (k, i),
                        'case': c, 'code': k, 'log': clog[-2000:]}, nofail=True,
                       text='model/implementation mismatch at case %d (code %d); no property violation found' % (i, k))
+    if replay_launches is not None or not replay_file:
+        launch_part(rep, binary, thorough, replay_launches)
     return rep.finish()
 
 
